@@ -38,7 +38,9 @@
 (*          closed before it could register,                               *)
 (*  "map"   removeConn compares identities, a closed connection is not     *)
 (*          published.                                                     *)
-(* With all four every property below holds.                               *)
+(*  "ping"  sendPing records the send time before it writes the ping, so   *)
+(*          a pong that is processed at once cannot look older than it.    *)
+(* With all of them every property below holds.                            *)
 (***************************************************************************)
 EXTENDS Integers, Sequences, FiniteSets, TLC
 
@@ -48,7 +50,7 @@ CONSTANTS N,           \* subscribers
           MaxFrames,   \* frames the upstream sends in total
           MaxCancels,  \* context cancellations
           CfgSet,      \* the configurations to start from: Configs (base) or ConfigsX (+ un-encodable request, pings)
-          Fixes        \* subset of {"dial", "write", "close", "map"}: repairs present in the code ({} = pinned code)
+          Fixes        \* subset of {"dial", "write", "close", "map", "ping"}: repairs present in the code ({} = pinned code)
 
 Subs  == 1..N
 Keys  == 1..NK
@@ -144,6 +146,7 @@ CauseBlame(c, s) ==
   IF sub[s].ctxc THEN "own"
   ELSE CASE conn[c].cause = "kill" -> "foreign_write"
          [] conn[c].cause = "idle" -> IF conn[c].byCancel THEN "foreign_close" ELSE "race_close"
+         [] conn[c].cause = "pingrace" -> "spurious_ping"
          [] OTHER -> "upstream"
 
 Fail(s, e, b) == [sub EXCEPT ![s].pc = "failed", ![s].err = e, ![s].blame = IF sub[s].blame = "none" THEN b ELSE sub[s].blame]
@@ -382,6 +385,16 @@ PingExpire(c) ==
   /\ down' = [down EXCEPT ![c] = <<>>]
   /\ UNCHANGED <<cfg, sub, dialing, conns, hlog, sent, nconn, nframes, ncancel>>
 
+\* pinned code: sendPing stores lastPingSentAt AFTER the ping was written; an upstream that answers at once has its pong
+\* processed (lastPongAt) before that, the pong then looks older than the ping and one interval later the HEALTHY
+\* connection is closed as if the pong were overdue.  Like a timer this can happen whenever pings are on.
+PingSpurious(c) ==
+  /\ cfg.ping /\ ~Fix("ping")
+  /\ ReadLive(c) /\ conn[c].sock = "open" /\ conn[c].pub /\ ~conn[c].muted
+  /\ ShutBegin(c, "pingrace")
+  /\ down' = [down EXCEPT ![c] = <<>>]
+  /\ UNCHANGED <<cfg, sub, dialing, conns, hlog, sent, nconn, nframes, ncancel>>
+
 \* the socket was closed under the read loop (WriteCancelKill*)
 ReadKilled(c) ==
   /\ ReadLive(c) /\ conn[c].sock = "closed"
@@ -470,7 +483,7 @@ Env ==
   \/ \E c \in Conn : SrvUpgrade(c) \/ SrvReject(c) \/ SrvAck(c) \/ SrvInitFail(c) \/ SrvClose(c, 0) \/ SrvMute(c)
   \/ \E c \in Conn, s \in Subs, k \in Kinds : SrvSend(c, s, k, IF k = "next" THEN "d" ELSE "-")
 
-Next == Env \/ (\E s \in Subs : InternalSub(s)) \/ (\E c \in Conn : InternalConn(c) \/ IdleFire(c))
+Next == Env \/ (\E s \in Subs : InternalSub(s)) \/ (\E c \in Conn : InternalConn(c) \/ IdleFire(c) \/ PingSpurious(c))
 
 Spec == Init /\ [][Next]_vars
 
@@ -528,6 +541,8 @@ CancelIsolated == \A s \in Subs : sub[s].blame \notin Foreign
 CancelIsolatedDial  == \A s \in Subs : sub[s].blame # "foreign_dial"
 CancelIsolatedWrite == \A s \in Subs : sub[s].blame # "foreign_write"
 CancelIsolatedClose == \A s \in Subs : sub[s].blame # "foreign_close"
+\* a connection whose upstream answers its pings is never closed for a pong timeout
+NoSpuriousPing == \A s \in Subs : sub[s].blame # "spurious_ping"
 
 \* connections are shared only between subscriptions with the same option tuple
 SharedOnlyIfSameKey ==
